@@ -114,6 +114,25 @@ class STIXdatetime(dt.datetime):
     def __repr__(self):
         return "'%s'" % format_datetime(self)
 
+    # (datetime's own copy/pickle support rebuilds the value from its packed
+    # state and would drop the formatting metadata)
+    def __reduce_ex__(self, protocol):
+        return (
+            _rebuild_stixdatetime, (
+                dt.datetime(
+                    self.year, self.month, self.day, self.hour, self.minute,
+                    self.second, self.microsecond, self.tzinfo, fold=self.fold,
+                ),
+                self.precision.name, self.precision_constraint.name,
+            ),
+        )
+
+
+def _rebuild_stixdatetime(dttm, precision, precision_constraint):
+    return STIXdatetime(
+        dttm, precision=precision, precision_constraint=precision_constraint,
+    )
+
 
 def deduplicate(stix_obj_list):
     """Deduplicate a list of STIX objects to a unique set.
